@@ -22,20 +22,7 @@ func countMappings(name string) int {
 	return strings.Count(string(b), name)
 }
 
-func checksum(b []byte) uint64 {
-	var h uint64 = 2166136261
-	for _, x := range b {
-		h = (h ^ uint64(x)) * 16777619 % 1000000007
-	}
-	return h
-}
-
-func bytesObs(b []byte) string {
-	if len(b) <= 256 {
-		return "q=" + hexs(b)
-	}
-	return fmt.Sprintf("q=h%d:%d", len(b), checksum(b))
-}
+func bytesObs(b []byte) string { return "q=" + bytesRepr(b) }
 
 func runMirrored(c *Case) []string {
 	req := c.Int("req", 4096)
